@@ -280,7 +280,8 @@ FAMILIES = {
     "xml": [("ovf", None), ("vbox", None), ("pvs", None)],
     "envelope": [("library", None), ("cli", None)],
     "vmtar": [("sample-handle", "test.vgz"), ("sample-path", "test.vgz"), ("gz-handle", "test.vgz"), ("visortarfile", "test.vgz"),
-              ("synthetic-handle", None), ("synthetic-path", None)],
+              ("synthetic-handle", None), ("synthetic-path", None), ("gz-path", "test.vgz"), ("big-gz-path", None),
+              ("big-gz-handle", None)],
 }
 DAMAGE = ["none", "trunc-0", "trunc-1", "trunc-512", "trunc-4096", "trunc-half", "trunc-last", "garbage-head", "garbage-mid"]
 
@@ -459,7 +460,19 @@ class AuditSuite(Suite):
             paths["main"] = os.path.join(root, "synthetic.vtar")
             with open(paths["main"], "wb") as o:
                 o.write(blob)
-        if fam == "vmtar" and variant == "gz-handle":
+        if fam == "vmtar" and variant.startswith("big-gz"):
+            # a gzip-wrapped archive that inflates to > 8 MiB (any spill of the inflated stream to disk would show)
+            import tarfile
+            bio = io.BytesIO()
+            with tarfile.open(fileobj=bio, mode="w", format=tarfile.USTAR_FORMAT) as tf:
+                for name, n in (("etc/small", 700), ("lib/big.bin", 9 * (1 << 20) + 123), ("etc/tail", 5)):
+                    ti = tarfile.TarInfo(name)
+                    ti.size = n
+                    tf.addfile(ti, io.BytesIO((name.encode() * (n // len(name) + 1))[:n]))
+            paths["main"] = os.path.join(root, "big.vgz")
+            with open(paths["main"], "wb") as o:
+                o.write(gzip.compress(bio.getvalue(), 1))
+        if fam == "vmtar" and variant in ("gz-handle", "gz-path"):
             raw = open(paths["main"], "rb").read()
             paths["main"] = os.path.join(root, "test.real.vgz")
             with open(paths["main"], "wb") as o:
@@ -554,7 +567,7 @@ class AuditSuite(Suite):
             Envelope(H(main)).decrypt(ks.key, aad=b"ESXConfiguration")
         elif fam == "vmtar":
             from dissect.hypervisor.util import vmtar
-            if variant in ("sample-path", "synthetic-path"):
+            if variant in ("sample-path", "synthetic-path", "gz-path", "big-gz-path"):
                 t = vmtar.open(main)
             elif variant == "visortarfile":
                 t = vmtar.VisorTarFile(fileobj=H(main))
